@@ -60,7 +60,7 @@ def base_mesh(k, tag, topo="triangle", extra=False):
         attrs.append({"ar": 1, "id": 5, "data": [[(tag * 10 + i) * Q] for i in range(nv)]})
     attrs.append({"ar": 3, "id": 1, "data": pos})
     mats = [{"n": k, "m": tag}] if (topo == "triangle" and extra) else []
-    return {"topo": topo, "idx": list(range(nv)), "attrs": attrs, "mats": mats, "exact": True, "fp": []}
+    return {"topo": topo, "idx": list(range(nv)), "attrs": attrs, "mats": mats, "exact": True, "bx": True, "fp": []}
 
 
 def instantiate_shape(shape, k, topo, extra):
@@ -256,7 +256,7 @@ def selftest(ctx, vh, hists):
     d = ctx.scratch("selftest")
     hp = os.path.join(d, "hist.ndjson")
     tri = {"topo": "triangle", "idx": [0, 1, 2], "attrs": [{"ar": 3, "id": 1, "data": [[0, 0, 0], [Q, 0, 0], [0, Q, 0]]}],
-           "mats": [], "exact": True, "fp": []}
+           "mats": [], "exact": True, "bx": True, "fp": []}
     pick = [{"nslots": 3, "steps": [
         {"op": "New", "dst": 1, "src": [], "args": {"z": 0, "mesh": tri}},
         {"op": "Translate", "dst": 2, "src": [1], "args": {"z": 0, "v": [Q, 0, 0]}},
